@@ -394,6 +394,15 @@ func gen(c *hx.Ctx) {
 		c.Count("concurrent_8_private_streams")
 	}
 
+	// 5c'. every LEB128 prefix-width boundary +-1 for WriteBytes AND WriteString, written and read back, through the compact
+	// `giant` form (payload from a formula, compared by prefix bytes / lengths / CRC / positions; cheap up to 2 MiB)
+	for _, n := range []int{127, 128, 129, 16383, 16384, 16385, 1<<21 - 1, 1 << 21, 1<<21 + 1} {
+		for _, k := range []string{"B", "S"} {
+			c.Emit("giant %s %d %d", k, n, c.Rng.U64()>>16)
+			c.Count("prefix_width_boundary_record")
+		}
+	}
+
 	// 5c. giant payloads (thorough tier only, about 1 GiB per case): the 5-byte length prefix starts at 2^28 bytes
 	if c.Thorough() {
 		if avail := memAvailableMiB(); avail >= 0 && avail < 3072 {
